@@ -75,6 +75,7 @@ def coq_makefile():
 def coq_build(targets):
     """make the given .vo targets (and whatever they depend on). Returns (ok, log)."""
     coq_makefile()
+    os.makedirs(os.path.join(COQ, "extract"), exist_ok=True)     # git-ignored: absent on a fresh checkout
     rc, out = sh(["make", "-j16"] + targets, cwd=COQ, timeout=3000)
     open(os.path.join(WORK, "coq_build.log"), "a").write(out)
     return rc == 0, out
